@@ -46,7 +46,10 @@ func lexAnswer(f []string) string {
 // other (errorf) message is "-".
 func lexErrClass(msg string) string {
 	switch {
-	case strings.Contains(msg, "unclosed tag"):
+	case strings.Contains(msg, "unclosed tag"),
+		strings.Contains(msg, "expected {@param name: ...}"),
+		strings.Contains(msg, "expected closing tag after {literal.."):
+		// errors of a tag that are reported at its `{` (the last two since /repo ac1c871)
 		return "01"
 	case strings.Contains(msg, "unexpected eof while scanning string"):
 		return "02"
@@ -58,6 +61,8 @@ func lexErrClass(msg string) string {
 		return "05"
 	case strings.Contains(msg, "expected double closing braces in tag"):
 		return "06"
+	case strings.Contains(msg, "unexpected beginning to name after"):
+		return "07"
 	}
 	return "-"
 }
